@@ -237,6 +237,68 @@ theorem unrootedOK_moveRoot (t : T) (i : Nat) (e : EdgeD) (c : T) (h : unrootedO
         exact hk q' (mem_of_mem_eraseIdx hq')
       · exact hkcs q (mem_of_mem_drop hq)
 
+/-! ## rotation keeps the shape hypotheses -/
+
+theorem rot_kids_perm (isRoot : Bool) (d : NodeD) (p : Nat) (k : Kids) (ds : List Nat) :
+    (C05.rot isRoot (.node d p k) ds).1.kids.Perm
+      (C05.rotL k (ds.drop (k.length + (if isRoot then 0 else 1)))).1 := by
+  simp only [C05.rot, T.kids_node]
+  refine ((C05.shuf_perm _ _ _ _).filterMap _).trans ?_
+  cases isRoot
+  · simp [C05.filterMap_insertAt_none]
+  · simp
+
+mutual
+theorem rot_noSingle : ∀ (isRoot : Bool) (t : T) (ds : List Nat),
+    (C05.rot isRoot t ds).1.noSingleBelow = t.noSingleBelow
+  | isRoot, .node d p k, ds => by
+    have hp := rot_kids_perm isRoot d p k ds
+    obtain ⟨h1, h2⟩ := rotL_noSingle k (ds.drop (k.length + (if isRoot then 0 else 1)))
+    have e : (C05.rot isRoot (.node d p k) ds).1
+        = .node (C05.rot isRoot (.node d p k) ds).1.d (C05.rot isRoot (.node d p k) ds).1.ppos
+            (C05.rot isRoot (.node d p k) ds).1.kids := by
+      cases (C05.rot isRoot (.node d p k) ds).1; rfl
+    rw [e]
+    simp only [T.noSingleBelow]
+    rw [hp.length_eq, h2]
+    congr 1
+    rw [Bool.eq_iff_iff, noSingleL_iff, ← h1, noSingleL_iff]
+    exact ⟨fun h q hq => h q (hp.mem_iff.mpr hq), fun h q hq => h q (hp.mem_iff.mp hq)⟩
+theorem rotL_noSingle : ∀ (k : Kids) (ds : List Nat),
+    noSingleL (C05.rotL k ds).1 = noSingleL k ∧ (C05.rotL k ds).1.length = k.length
+  | [], _ => by simp [C05.rotL]
+  | (e, t) :: r, ds => by
+    obtain ⟨h1, h2⟩ := rotL_noSingle r (C05.rot false t ds).2
+    simp [C05.rotL, noSingleL, rot_noSingle false t ds, h1, h2]
+end
+
+theorem noSingleBelow_eq (v : T) : v.noSingleBelow = (v.kids.length != 1 && noSingleL v.kids) := by
+  cases v; rfl
+
+/-- `RotateInternalNodes` keeps a tree of the property a tree of the property -/
+theorem unrootedOK_rotate (t : T) (draws : List Nat) (h : unrootedOK t = true) :
+    unrootedOK (C05.rotate t draws) = true := by
+  unfold unrootedOK at h ⊢
+  simp only [Bool.and_eq_true, decide_eq_true_eq] at h ⊢
+  obtain ⟨⟨h1, h2⟩, h3⟩ := h
+  obtain ⟨_, _, _, hlen, _, hleaves⟩ := C05.rot_rel true t draws
+  have hns := rot_noSingle true t draws
+  have hk : (C05.rotate t draws).kids.length = t.kids.length := hlen
+  have hk3 : 3 ≤ (C05.rotate t draws).kids.length := by rw [hk]; exact h3
+  refine ⟨⟨?_, ?_⟩, hk3⟩
+  · -- unique tips: the tip names are permuted
+    have hp : (C05.rotate t draws).tipNames.Perm t.tipNames := by
+      rw [Canon.tipNames_eq _ hk3, Canon.tipNames_eq t h3]; exact hleaves
+    exact (uniqueTips_iff _).mpr (hp.symm.nodup ((uniqueTips_iff t).mp h1))
+  · -- no single-child node
+    have e : (C05.rotate t draws).noSingleBelow = t.noSingleBelow := hns
+    rw [noSingleBelow_eq, noSingleBelow_eq, hk] at e
+    have h2' : noSingleL t.kids = true := h2
+    have hne : (t.kids.length != 1) = true := by simp; omega
+    rw [h2', hne] at e
+    simp only [Bool.and_true, Bool.true_and] at e
+    exact e
+
 /-- every node the re-rooting walks through, the target included, is an inner node (in the
     coordinates `rerootP` uses); an index out of range ends the walk, as in `rerootP` -/
 def innerPath : T → List Nat → Option Nat → Bool
